@@ -211,7 +211,7 @@ Qed.
 Theorem research_paths_retrievable : forall q root l,
   wf_keys root ->
   research q root = Ok l ->
-  forall p r, In (p, r) l -> p <> [KNone] ->
+  forall p r, In (p, r) l -> ~ (p = [KNone] /\ r = oref_of root) ->
     crosses_set (collect_defs root) root p = false ->
     get_path root p = Ok r.
 Proof.
@@ -225,7 +225,7 @@ Proof.
   destruct (reported_in _ _ _ _ Hin) as [ep [ek [es [He ->]]]].
   destruct (srb_events impl_blank None _ (ONode id k items) Hw true [] KNone [] [] v m lg E _ He)
     as [[]|[[]|[H|H]]].
-  - inversion H; subst. exfalso. apply Hp. reflexivity.
+  - inversion H; subst. exfalso. apply Hp. split; reflexivity.
   - destruct H as [ep' [ek' [er [es' [s [Ee [Hps [Hs [Hx|[c [Hx ->]]]]]]]]]]]; inversion Ee; subst.
     + cbn [app] in Hps. rewrite Hps in Hc. rewrite (walk_cross _ _ _ Hx) in Hc. discriminate.
     + cbn [app] in Hps. rewrite Hps. unfold get_path. apply walk_get. assumption.
